@@ -7,11 +7,13 @@
    (b) the ingest filter keeps exactly the records that are not the discoverer's own and are strictly below the watched
        service; own records, records owned by the service name and foreign names are never kept;
    (c) unescape (escape s) = s for every byte string.
-   PARTIAL: sequences of announcements from several peers, re-announcements, and the grouping of the cached records by
-   owner inside the store (get_known_services over HashMap / trie iteration order) are covered by the DISC slice only.
-   Property theorems only. *)
+   (d) through the record store: a fresh discoverer (its own `service PTR instance` registered, as ServiceDiscovery::new
+       does) that ingests the parsed announcement reports, from get_known_services, exactly the advertised instance at
+       every instant before the TTL has elapsed and nothing afterwards.
+   PARTIAL: sequences of announcements from several peers and re-announcements (interleaving of owners inside the trie,
+   HashMap iteration order) are covered by the DISC slice only. Property theorems only. *)
 Require Import SD.Base SD.Codes SD.Header SD.HeaderProofs SD.Name SD.RData SD.Packet SD.RoundTrip SD.TextApi SD.TextApiProofs
-  SD.Store SD.DiscoveryProofs.
+  SD.Store SD.DiscoveryProofs SD.DiscoveryStore.
 
 Theorem C15_discovered : forall i service inst me ttl h recs,
   let full := inst :: service in
@@ -24,6 +26,17 @@ Theorem C15_discovered : forall i service inst me ttl h recs,
     = Some {| i_name := inst; i_ips := i_ips i; i_ports := i_ports i; i_attrs := rev (i_attrs i) |}.
 Proof. exact advertised_instance_discovered. Qed.
 Print Assumptions C15_discovered.
+
+Theorem C15_end_to_end : forall i service inst me ttl0 ttl h recs now now',
+  let full := inst :: service in
+  instance_ok i full ttl -> full <> me -> NoDup (i_ips i) -> NoDup (i_ports i) ->
+  h_id h < 65536 -> named_opcode (h_opcode h) -> named_rcode (h_rcode h) -> rcode_disc (h_rcode h) < 16 -> (exists k, k < 128 /\ h_flags h = flagset k) ->
+  into_records i full ttl = Ok recs ->
+  exists b p', write_packet_compressed (announcement h recs) = Ok b /\ parse_packet b = Ok p' /\
+    known_services (ingest (fresh_store service me ttl0) service me p' now) service now' =
+    if now' <? now + 2 * ttl then [{| i_name := inst; i_ips := i_ips i; i_ports := i_ports i; i_attrs := rev (i_attrs i) |}] else [].
+Proof. exact discovery_end_to_end. Qed.
+Print Assumptions C15_end_to_end.
 
 Theorem C15_ingest_filter : forall service me p r,
   In r (ingest_filter service me p) <->
